@@ -40,7 +40,7 @@ struct Hist<'a, T: Tbl> {
     nonconst: usize,
 }
 
-const OPS: [&str; 63] = [
+const OPS: [&str; 66] = [
     "zero", "one", "default", "nth_var", "parity", "majority", "threshold", "equals", "symmetric", "random",
     "from_blocks", "from_hex(print)", "from_hex(arbitrary)", "dyn-roundtrip", "int-roundtrip",
     "not-form", "and-form", "or-form", "xor-form",
@@ -52,7 +52,7 @@ const OPS: [&str; 63] = [
     "route:x^y^y", "route:de-morgan", "route:shannon", "route:clone", "route:double-not", "route:and-self",
     "route:or-zero", "route:xor-zero", "route:and-one", "route:swap-as-adjacent", "route:flip-twice-inplace",
     "route:cofactor-of-independent", "route:from_hex(upper)", "route:static-dyn-static", "route:min-max", "route:sort",
-    "tryfrom-other-size",
+    "tryfrom-other-size", "route:clone_from", "route:vec-clone_from", "clone_from-other-size",
 ];
 
 impl<'a, T: Tbl> Hist<'a, T> {
@@ -213,6 +213,7 @@ impl<'a, T: Tbl> Hist<'a, T> {
             }
         };
         let other_blocks = vmon::gen::gen(*self.rng.pick(&[vmon::gen::Fam::Random, vmon::gen::Fam::Dense, vmon::gen::Fam::Const]), other_n, &mut self.rng);
+        let mut cross_clone: Option<(Lut, Lut, Vec<Lut>)> = None;
         // every operation returns the values it produced; a panic on valid arguments belongs to the
         // property that owns the operation and is only counted here
         let r: Outcome<Vec<T>> = guard(|| -> Vec<T> {
@@ -243,6 +244,37 @@ impl<'a, T: Tbl> Hist<'a, T> {
                 "from_hex(print)" => T::t_from_hex_string(n, &hexa).into_iter().collect(),
                 "from_hex(arbitrary)" => T::t_from_hex_string(n, &hostile).into_iter().collect(),
                 "dyn-roundtrip" | "route:static-dyn-static" => T::try_from_dyn(a.to_dyn()).into_iter().collect(),
+                "route:clone_from" => {
+                    // std trait methods are public API too: overwrite another value with Clone::clone_from
+                    let mut d = b.clone();
+                    d.clone_from(&a);
+                    let mut e = T::t_zero(n);
+                    e.clone_from(&a);
+                    vec![d, e]
+                }
+                "route:vec-clone_from" => {
+                    let src = vec![a.clone(), b.clone()];
+                    let mut dst = vec![T::t_one(n), a.clone()];
+                    dst.clone_from(&src);
+                    let mut o: Option<T> = Some(b.clone());
+                    o.clone_from(&Some(a.clone()));
+                    let mut v = dst;
+                    v.extend(o);
+                    v
+                }
+                "clone_from-other-size" => {
+                    // dynamic Lut only: the destination has another size; afterwards it must BE the source
+                    // (checked here, the value does not join this history's pool of n-variable tables)
+                    if !T::STATIC {
+                        let src = Lut::from_blocks(other_n, &other_blocks);
+                        let mut d = a.to_dyn();
+                        d.clone_from(&src);
+                        let mut dv = vec![a.to_dyn(), Lut::zero(n)];
+                        dv.clone_from(&vec![src.clone()]);
+                        cross_clone = Some((src, d, dv));
+                    }
+                    vec![]
+                }
                 "tryfrom-other-size" => {
                     // a conversion from a Lut of another size must fail; whatever it returns as Ok is a value
                     // obtained through the public API and is held to the representation invariant
@@ -388,6 +420,16 @@ impl<'a, T: Tbl> Hist<'a, T> {
                 _ => vec![],
             }
         });
+        if let Some((src, d, dv)) = cross_clone {
+            let step = self.step;
+            let ok = d == src && d.num_vars() == src.num_vars() && d.blocks() == src.blocks() && well_formed(d.num_vars(), d.blocks()).is_ok()
+                && dv.len() == 1 && dv[0] == src && dv[0].num_vars() == src.num_vars() && dv[0].blocks() == src.blocks();
+            self.ctx.cell_only("op|clone_from-other-size|Lut");
+            self.ctx.check("repr", ok, self.ev, "op=clone_from-other-size", || {
+                format!("step {}: clone_from of a {}-variable Lut into a {}-variable one left num_vars={} blocks={} (source blocks={})",
+                    step, src.num_vars(), n, d.num_vars(), vmon::ctx::hex_of_blocks(d.blocks()), vmon::ctx::hex_of_blocks(src.blocks()))
+            });
+        }
         match r {
             Outcome::Returned(vs) => {
                 for v in vs {
@@ -566,6 +608,9 @@ fn main() {
                 required.push(format!("op|{}|{}|n<6", op, ty));
                 continue;
             }
+            if op == "clone_from-other-size" {
+                continue; // checked inline (cell op|clone_from-other-size|Lut), produces no pool value
+            }
             if op == "tryfrom-other-size" {
                 // a correct library returns Err for every such conversion: nothing is produced, nothing to require
                 continue;
@@ -580,6 +625,7 @@ fn main() {
         }
     }
     required.push("cross-size|Lut".into());
+    required.push("op|clone_from-other-size|Lut".into());
     let eqc = ctx.counters.get("comparisons-equal-function").copied().unwrap_or(0);
     if eqc < 1000 {
         required.push("at least 1000 equal-function comparisons between values with different histories".into());
